@@ -182,7 +182,7 @@ func checkTotalFacts(c ExecCase) (v *Violation, f totalFacts) {
 // typeTableCases: every operator and method applied to every JSON type.
 func typeTableCases() []ExecCase {
 	long := "1" + strings.Repeat("0", 400)
-	values := []string{`0`, `0.0`, `-0.0`, `"0"`, `1e-400`, long, "-" + long, `[0, ` + long + `]`, `null`, `true`, `1`, `-1.5`, `1e308`, `9223372036854775807`, `1e400`, `123456789012345678901234567890`, `"abc"`, `"12"`, `"2015-08-01"`, `"12:34:56+01"`, `"2015-08-01T12:34:56"`, `[]`, `[1,"a",null]`, `[[1]]`, `{}`, `{"a":1,"b":[2]}`}
+	values := []string{`5e-324`, `0.001`, `-1e-300`, `0`, `0.0`, `-0.0`, `"0"`, `1e-400`, long, "-" + long, `[0, ` + long + `]`, `null`, `true`, `1`, `-1.5`, `1e308`, `9223372036854775807`, `1e400`, `123456789012345678901234567890`, `"abc"`, `"12"`, `"2015-08-01"`, `"12:34:56+01"`, `"2015-08-01T12:34:56"`, `[]`, `[1,"a",null]`, `[[1]]`, `{}`, `{"a":1,"b":[2]}`}
 	var tails []string
 	for _, m := range methods {
 		tails = append(tails, "$."+m+"()")
@@ -192,7 +192,7 @@ func typeTableCases() []ExecCase {
 	}
 	tails = append(tails, "$.decimal(5,2)", "$.decimal(1000,1000)", "$.decimal(10,400)", "$.decimal(1,-1000)", "$.time(3)", "$.timestamp_tz(0)", "-$", "+$", "$[0]", "$[last]", "$[$]", "$[0 to $]", "$[$[1]]", "$[0 to $[1]]", "$[0] == $[1]", "$[1] > 0", "$[*] ? (@ > 1)", "$.decimal(1000,400)", "$.decimal(400,309)", "$.decimal(1,-400)", "$.*", "$[*]", "$.**", "$.a", "$ ? (@ > 1)", "$.datetime().string()", "$.datetime().type()")
 	for _, op := range arithOps {
-		tails = append(tails, "$ "+op+" 2", "2 "+op+" $", "$ "+op+" $", "$ "+op+" 0", "$ "+op+" 1e308", "$ "+op+" 9223372036854775807")
+		tails = append(tails, "1e308 "+op+" $", "9223372036854775807 "+op+" $", "$ "+op+" 0.001", "$ "+op+" 5e-324", "4294967296 "+op+" $", "$ "+op+" 2", "2 "+op+" $", "$ "+op+" $", "$ "+op+" 0", "$ "+op+" 1e308", "$ "+op+" 9223372036854775807")
 	}
 	for _, op := range cmpOps {
 		tails = append(tails, "$ "+op+" 1", "$ "+op+" $", `$ `+op+` "abc"`, "$ "+op+" null", "$.datetime() "+op+" $", "$ "+op+` "2015-08-01".datetime()`, "$.datetime() "+op+` "12:00:00".time()`)
